@@ -10,6 +10,7 @@ from ..core import Violation
 from ..detloop import DetLoop
 
 PID = 'C17'
+TFAULT = 'underlying method fault'
 EXHAUSTIVE = True
 EXHAUSTIVE_SCOPE = ('{Namespace, AsyncNamespace, ClientNamespace, '
                     'AsyncClientNamespace} x every helper found by '
@@ -125,6 +126,10 @@ def strategy(tier):
         'history': st.lists(st.sampled_from(['event', 'helper_ns',
                                              'bad_register']),
                             max_size=2),
+        # the underlying method fails: the helper passes the exception on
+        # and does not try anything else
+        'target_raises': st.sampled_from([None, None, None, 'TypeError',
+                                          'RuntimeError']),
         'ns_override': st.sampled_from(['/other', '/', '/reg', '/x y']),
         'values': st.lists(val, min_size=8, max_size=8)}).map(
         lambda d: _norm(d, cl))
@@ -138,6 +143,7 @@ def _norm(d, cl):
     c['vals'] = vals
     c['reg'] = d['reg']
     c['history'] = d.get('history', [])
+    c['target_raises'] = d.get('target_raises')
     return c
 
 
@@ -150,6 +156,7 @@ def check_case(case):
     req, opt = params(socketio, nscls_name, helper)
     calls = []
     SENT = object()
+    armed = [None]
 
     class Recorder:
         pass
@@ -161,6 +168,9 @@ def check_case(case):
         def rec(self, *a, **k):
             b = sig.bind(self, *a, **k)
             calls.append((name, dict(b.arguments)))
+            if armed[0]:
+                raise {'TypeError': TypeError,
+                       'RuntimeError': RuntimeError}[armed[0]](TFAULT)
             return SENT
         if is_coro:
             async def arec(self, *a, **k):
@@ -260,6 +270,9 @@ def check_case(case):
             kw = {p: vals[p] for p in given if p not in prefix}
     else:
         kw = {p: vals[p] for p in given}
+    armed[0] = case.get('target_raises')
+    if helper == 'session':
+        armed[0] = None     # returns a context manager, calls nothing yet
     try:
         r = getattr(ns, helper)(*pos, **kw)
         if inspect.isawaitable(r):
@@ -268,9 +281,22 @@ def check_case(case):
                 r = loop.run(r)
             finally:
                 loop.shutdown()
-    except TypeError as e:
-        raise Violation('helper-raised', '%s.%s(%r, %r): %r'
-                        % (nscls_name, helper, pos, kw, e))
+    except (TypeError, RuntimeError) as e:
+        if armed[0] and str(e) == TFAULT:
+            if len(calls) != 1 or calls[0][0] != helper:
+                raise Violation('retried-after-target-failure',
+                                '%s.%s: the failing %s was entered %d times: '
+                                '%r' % (nscls_name, helper, helper,
+                                        len(calls), calls))
+            r = SENT
+        else:
+            raise Violation('helper-raised', '%s.%s(%r, %r): %r'
+                            % (nscls_name, helper, pos, kw, e))
+    else:
+        if armed[0]:
+            raise Violation('target-failure-swallowed', '%s.%s returned %r '
+                            'although %s raised' % (nscls_name, helper, r,
+                                                    helper))
     what = '%s.%s(*%r, **%r)' % (nscls_name, helper, pos, kw)
     if len(calls) != 1 or calls[0][0] != helper:
         raise Violation('wrong-method', '%s -> %r' % (what, calls))
